@@ -206,11 +206,13 @@ namespace {
     S::computeEigenValuesDerivatives(dl[0], dl[1], dl[2], m);
     const auto nn = S::computeEigenTensors(m);
     const R u = U<T>();
+    // the columns of the rounded m are the eigenvectors of X up to u*|X|/gap
+    const R tolP = 2048 * u * std::max<R>(1, nX / gap);
     for (int i = 0; i < 3; ++i) {
       const M3 P = projector(X, lam, i, N);
-      cmpS(c, n[i], P, 64 * u, "C06.eigen.tensors", "computeEigenTensors");
+      cmpS(c, n[i], P, tolP, "C06.eigen.tensors", "computeEigenTensors");
       const S nt = i == 0 ? std::get<0>(nn) : (i == 1 ? std::get<1>(nn) : std::get<2>(nn));
-      cmpS(c, nt, P, 64 * u, "C06.eigen.tensors", "computeEigenTensors (tuple)");
+      cmpS(c, nt, P, tolP, "C06.eigen.tensors", "computeEigenTensors (tuple)");
       // derivative of the eigenvalue: FD of lambda_i(s) = n_i(s):s
       const auto lambda = [&](const M3& x) { return ref::ddot(projector(x, lam, i, N), x); };
       fd::check2(c, dl[i], N, SYM, lambda, X, h, R(1), 1e-9L * std::max<R>(1, nX / gap), dir,
